@@ -1,8 +1,10 @@
 // addrdrv: conformance driver for peer address records (C34).
 //
 // A scenario names one acceptance path and one honest record (key, underlay,
-// network id); its operations are the record itself and single-field mutations
-// of it (spec/addrrecord/AddrRecordGen.tla).  The driver concretises each
+// network id); its operations are the record itself, single-field mutations of
+// it, boundary shifts (underlay tail moved in front of the overlay / overlay head
+// appended to the underlay: same signed bytes, other field lengths) and records the
+// key signed itself for an overlay that is not its own (spec/addrrecord/AddrRecordGen.tla).  The driver concretises each
 // symbolic record with real secp256k1 keys and multiaddrs, presents it to
 //
 //	parse      aurora.ParseAddress
@@ -64,11 +66,26 @@ type fixtures struct {
 	keys    map[int]*ecdsa.PrivateKey
 	nodeKey *ecdsa.PrivateKey
 	under   map[int]ma.Multiaddr
+	ucuts   map[int][]int // byte offsets of the model's cut points of each underlay (AddrRecord.tla UnBase)
 	mask    byte
+	junk    []byte // seeded bytes that belong to nobody
+}
+
+// overlay cut points (AddrRecord.tla OvCutBytes)
+var ovCuts = []int{0, 1, 31, 32}
+
+// cutsOf: start, end of the 1st component, end of the 2nd, one byte before the end, end.
+func cutsOf(m ma.Multiaddr) ([]int, error) {
+	comps := ma.Split(m)
+	if len(comps) != 3 {
+		return nil, fmt.Errorf("underlay %s: %d components, want 3", m, len(comps))
+	}
+	l1, l2, n := len(comps[0].Bytes()), len(comps[1].Bytes()), len(m.Bytes())
+	return []int{0, l1, l1 + l2, n - 1, n}, nil
 }
 
 func newFixtures() (*fixtures, error) {
-	f := &fixtures{keys: map[int]*ecdsa.PrivateKey{}, under: map[int]ma.Multiaddr{}}
+	f := &fixtures{keys: map[int]*ecdsa.PrivateKey{}, under: map[int]ma.Multiaddr{}, ucuts: map[int][]int{}}
 	rng := kit.Rng(34)
 	mk := func() (*ecdsa.PrivateKey, error) {
 		b := make([]byte, 32)
@@ -83,6 +100,23 @@ func newFixtures() (*fixtures, error) {
 			return nil, err
 		}
 	}
+	// key 3 is the first key of the seeded stream whose overlay on network 1 STARTS WITH A ZERO BYTE: for it the overlay
+	// without its first byte (31 bytes) and the overlay have the same value as big-endian numbers / zero-padded hashes
+	for try := 0; ; try++ {
+		ov, err := crypto.NewOverlayAddress(f.keys[3].PublicKey, netID[1])
+		if err != nil {
+			return nil, err
+		}
+		if ov.Bytes()[0] == 0 {
+			break
+		}
+		if try > 1<<16 {
+			return nil, fmt.Errorf("no key with a zero-led overlay among %d candidates", try)
+		}
+		if f.keys[3], err = mk(); err != nil {
+			return nil, err
+		}
+	}
 	if f.nodeKey, err = mk(); err != nil {
 		return nil, err
 	}
@@ -90,7 +124,13 @@ func newFixtures() (*fixtures, error) {
 		if f.under[i], err = ma.NewMultiaddr(s); err != nil {
 			return nil, err
 		}
+		if f.ucuts[i], err = cutsOf(f.under[i]); err != nil {
+			return nil, err
+		}
 	}
+	f.junk = make([]byte, 42)
+	rng.Read(f.junk)
+	f.junk[0] |= 1 // "pre1" never prepends a zero byte ("prez" does)
 	f.mask = byte(1) << uint(rng.Intn(8))
 	return f, nil
 }
@@ -183,20 +223,43 @@ func (f *fixtures) build(d map[string]interface{}) (*record, error) {
 		}
 		r.overlay = append([]byte{}, ov.Bytes()...)
 	case "overlay_byte":
-		switch how {
-		case "short31":
-			r.overlay = r.overlay[:31]
-		case "long33":
-			r.overlay = append(r.overlay, 0)
-		case "empty":
-			r.overlay = []byte{}
-		default:
-			p, ok := pos(how)
-			if !ok || p >= len(r.overlay) {
-				return nil, fmt.Errorf("overlay damage %q", how)
-			}
-			r.overlay[p] ^= f.mask
+		if r.overlay, err = f.damagedOverlay(r.overlay, how); err != nil {
+			return nil, err
 		}
+	case "shift":
+		// the boundary between the two fields is moved; underlay || overlay stays what the key signed
+		cut, err := strconv.Atoi(how[1:])
+		if err != nil || len(how) != 2 {
+			return nil, fmt.Errorf("shift %q", how)
+		}
+		all := append(append([]byte{}, r.underlay...), r.overlay...)
+		var at int
+		switch {
+		case how[0] == 'c' && cut < len(f.ucuts[u]):
+			at = f.ucuts[u][cut]
+		case how[0] == 'o' && cut < len(ovCuts):
+			at = len(r.underlay) + ovCuts[cut]
+		default:
+			return nil, fmt.Errorf("shift %q", how)
+		}
+		r.underlay, r.overlay = all[:at:at], all[at:]
+	case "claim":
+		// the key itself signs (underlay, claimed overlay, network id) for an overlay that is not its own
+		claimed := r.overlay
+		if how == "other" {
+			ov, err := crypto.NewOverlayAddress(f.keys[kit.Int(d, "mk")].PublicKey, netID[n])
+			if err != nil {
+				return nil, err
+			}
+			claimed = append([]byte{}, ov.Bytes()...)
+		} else if claimed, err = f.damagedOverlay(r.overlay, how); err != nil {
+			return nil, err
+		}
+		a, err := aurora.NewAddress(crypto.NewDefaultSigner(f.keys[k]), f.under[u], boson.NewAddress(claimed), netID[n])
+		if err != nil {
+			return nil, err
+		}
+		r.overlay, r.sig = claimed, append([]byte{}, a.Signature...)
 	case "sig_byte":
 		p, ok := pos(how)
 		if !ok || p >= len(r.sig) {
@@ -240,6 +303,33 @@ func (f *fixtures) build(d map[string]interface{}) (*record, error) {
 		return nil, fmt.Errorf("unknown mutation %q", mut)
 	}
 	return r, nil
+}
+
+// damagedOverlay: AddrRecord.tla OvDamaged (one byte changed, or another length that still contains the overlay's bytes).
+func (f *fixtures) damagedOverlay(ov []byte, how string) ([]byte, error) {
+	ov = append([]byte{}, ov...)
+	switch how {
+	case "short31":
+		return ov[:31], nil
+	case "tail31":
+		return ov[1:], nil
+	case "long33":
+		return append(ov, 0), nil
+	case "pre1":
+		return append(append([]byte{}, f.junk[:1]...), ov...), nil
+	case "prez":
+		return append([]byte{0}, ov...), nil
+	case "pre42":
+		return append(append([]byte{}, f.junk...), ov...), nil
+	case "empty":
+		return []byte{}, nil
+	}
+	p, ok := pos(how)
+	if !ok || p >= len(ov) {
+		return nil, fmt.Errorf("overlay damage %q", how)
+	}
+	ov[p] ^= f.mask
+	return ov, nil
 }
 
 func sameAddr(a *aurora.Address, r *record) bool {
@@ -340,7 +430,9 @@ func run(f *fixtures, sc kit.Scenario, out *kit.Out) error {
 		}
 		ev := kit.Ev{"op": path, "k": kit.Int(d, "k"), "u": kit.Int(d, "u"), "n": kit.Int(d, "n"), "vn": kit.Int(d, "vn"),
 			"mut": mut, "mk": kit.Int(d, "mk"), "mu": kit.Int(d, "mu"), "how": kit.Str(d, "how"),
-			"accepted": false, "same": false, "err": "", "panicked": false, "pmsg": ""}
+			"accepted": false, "same": false, "err": "", "panicked": false, "pmsg": "",
+			"ulen": len(r.underlay), "olen": len(r.overlay), "slen": len(r.sig),
+			"ucuts": []interface{}{f.ucuts[1], f.ucuts[2], f.ucuts[3]}}
 
 		// the network id a handshake Ack names in its own field
 		fieldNet := vn
